@@ -24,6 +24,7 @@ def generator_rows(P, cl, which):
 
 def run(chk, ctx):
     P = Prog(ctx["facts"])
+    popped_row_untouched_rule(chk, P)
     from . import eqrules
     eqrules.require(chk, P, ["stmt::DataEntry"], "`new != old` on row entries means a different entry (kind or value)")
     eqrules.require_clone(chk, P, ["stmt::DataEntries"], "expansion copies carry the row's entries unchanged")
